@@ -311,6 +311,11 @@ func (fv *FV) doReturn(st *State, x *ssa.Return) *State {
 		res = append(res, fv.val(st, r))
 	}
 	if fr.Caller == nil {
+		for _, r := range res {
+			if r.K == VTerm {
+				st.escapeTerm(r.T)
+			}
+		}
 		fv.checkTypeInvs(st, x.Pos())
 		fv.checkPost(st, x, res)
 		return nil
